@@ -210,35 +210,54 @@ empty batches in `readMessage`, `readMessageV2` with the payload push, `markRead
 with its error switch, the skip loop of `(*Batch).ReadMessage`.  The token machine of Model/MessageSetReader.lean is the
 same computation organised by tokens instead of by calls. -/
 
-/-- `pull_eq_run` (v2 streams: batch headers, records, compressed payloads, cut — *any* such stream, well formed or
-not): whenever the token machine does not report a desynchronisation the pull parser returns the same messages, the
-same conn offset and the same outcome.  (For streams with v0/v1 tokens the same statement is evaluated by the oracle on
-every generated case and on random streams — ops `fetch`, `pullfuzz` — but not proved.) -/
-theorem pull_eq_run (e : Bool) (o hwm : Int) (toks : List Tok) (hv : allV2 toks)
+/-- `pull_eq_run`: on *any* token stream — v2 batch headers, records, compressed payloads, v0/v1 messages, wrappers, cut, in
+any order, well formed or not (only: a v0/v1 header token carries magic 0 or 1, `allWF`) — whenever the token machine
+does not report a desynchronisation the pull parser returns the same messages, the same conn offset and the same
+outcome.  The proof is a simulation: `Lemmas/PullReader.lean` `Rel` relates the reader stack of the Go code to a position
+of the token machine; `v1_loop` is `readMessageV1`'s `for r.readerStack != nil` loop (skip below `min`, wrapper push,
+pop of exhausted readers), `headerLoop_flat` the loop over empty batches, `call_any` one `(*Batch).readMessage`. -/
+theorem pull_eq_run (e : Bool) (o hwm : Int) (toks : List Tok) (hv : allWF toks)
     (hnd : (readAll .fixed e o hwm toks).2.2 ≠ .desync) :
     Pull.readAll e o hwm toks = readAll .fixed e o hwm toks :=
-  pull_eq_run_v2 e o hwm toks hv hnd
+  pull_eq_run_all e o hwm toks hv hnd
 
-/-- `single_fetch` for the pull parser: on every well-formed layout of v2 batches, any cut, any start offset, the code as
-written delivers exactly the completely contained records at or above the start offset and jumps over no stored record -/
-theorem single_fetch_pull (items : List Item) (hb2 : ∀ it ∈ items, ∃ a b c d e, it = Item.b2 a b c d e) (nb : Int) (hnb : 0 ≤ nb)
-    (hwf : LWF nb items) (o hwm : Int) (ho : 0 ≤ o) (hne : hwm ≠ o) (cut : Int) (expired : Bool) :
+/-- `single_fetch` for the pull parser: on every well-formed layout (v2 batches plain and compressed, v0/v1 messages and
+wrappers, mixed), any cut, any start offset, the code as written delivers exactly the completely contained records at
+or above the start offset, in increasing order, below the new position, and jumps over no stored record -/
+theorem single_fetch_pull (items : List Item) (nb : Int) (hnb : 0 ≤ nb) (hwf : LWF nb items) (o hwm : Int) (ho : 0 ≤ o)
+    (hsafe : Safe o items) (hne : hwm ≠ o) (cut : Int) (expired : Bool) :
     let res := Pull.readAll expired o hwm (responseTokens items cut)
     res.1 = (containedRecords items cut).filter (fun r => o ≤ r.1) ∧ res.2.2 ≠ .desync ∧
-    (∀ r ∈ allRecords items, o ≤ r.1 → r.1 < res.2.1 → r ∈ res.1) := by
-  have hsafe : Safe o items := by
-    apply safe_of_v2
-    intro it hit
-    obtain ⟨a, b, c, d, e, rfl⟩ := hb2 it hit
-    rfl
+    (∀ r ∈ allRecords items, o ≤ r.1 → r.1 < res.2.1 → r ∈ res.1) ∧
+    (∀ r ∈ res.1, r.1 < res.2.1) ∧
+    res.1.Pairwise (fun a b => a.1 < b.1) := by
   have h := single_fetch items nb hnb hwf o hwm ho hsafe hne cut expired
-  have hv : allV2 (responseTokens items cut) := by
+  have hv : allWF (responseTokens items cut) := by
     unfold responseTokens
     split
-    · exact allV2_tokens items hb2
-    · exact allV2_truncate _ _ (allV2_tokens items hb2)
+    · exact allWF_tokens items nb hwf
+    · exact allWF_truncate _ _ (allWF_tokens items nb hwf)
   rw [pull_eq_run expired o hwm _ hv h.2.1]
-  exact ⟨h.1, h.2.1, h.2.2.1⟩
+  exact h
+
+/-- `single_fetch_bytes` for the pull parser: **bytes in, code as written** — the first `n` bytes of anything the reference
+encoder emits, tokenized, then read by the statement-level model of message_reader.go / batch.go -/
+theorem single_fetch_bytes_pull (c : TokCfg) (enc : Int → Bytes → Bytes) (hdec : ∀ k b, c.dec k (enc k b) = some b)
+    (hpos : ∀ k b, 0 < (enc k b).length) (h1 : ∀ b, c.crcs.ieee b < RW.M32) (h2 : ∀ b, c.crcs.castagnoli b < RW.M32)
+    (its : List BItem) (hitems : ∀ it ∈ its, it.WF c enc) (nb : Int) (hnb : 0 ≤ nb) (hwf : LWF nb (layoutOfItems c enc its))
+    (o hwm : Int) (ho : 0 ≤ o) (hsafe : Safe o (layoutOfItems c enc its)) (hne : hwm ≠ o) (expired : Bool) (n : Nat) :
+    let toks := tokenize c (n + 1) .hdr ((encItems c enc its).take n)
+    (Pull.readAll expired o hwm toks).1 = (contained (layoutOfItems c enc its) n).filter (fun r => o ≤ r.1) ∧
+    (Pull.readAll expired o hwm toks).2.2 ≠ .desync ∧
+    (∀ r ∈ allRecords (layoutOfItems c enc its), o ≤ r.1 → r.1 < (Pull.readAll expired o hwm toks).2.1 →
+      r ∈ (Pull.readAll expired o hwm toks).1) := by
+  have h := single_fetch_bytes c enc hdec hpos h1 h2 its hitems nb hnb hwf o hwm ho hsafe hne expired n
+  have hv : allWF (tokenize c (n + 1) .hdr ((encItems c enc its).take n)) := by
+    rw [tokenize_items c enc hdec hpos h1 h2 its hitems n (n + 1) (by omega)]
+    exact allWF_truncate _ _ (allWF_tokens _ nb hwf)
+  simp only at h ⊢
+  rw [pull_eq_run expired o hwm _ hv h.2.1]
+  exact h
 
 /-- observation (a), not a finding: *outside* the fetch contract — a response cut inside its first v2 batch — the
 records below the start offset that were read and skipped leave the position below it (103 → 102); a later complete
